@@ -4,6 +4,7 @@ import (
 	"container/heap"
 	"lunar/toolkit-core/clock"
 	"lunar/toolkit-core/logging"
+	"lunar/toolkit-core/verifhook"
 	"sync"
 	"time"
 )
@@ -79,6 +80,7 @@ func (dpq *DelayedPriorityQueue) Enqueue(
 	dpq.requestCounts[req.priority]++
 
 	dpq.mutex.Unlock()
+	verifhook.Yield("dpq.unlocked-before-park")
 
 	// Wait until request is processed or TTL expires
 	select {
